@@ -490,8 +490,8 @@ func ruleGroupTrigger(c *Ctx, r *R) {
 		var trigRecv ssa.Value // for a method value (c.fire): the receiver it is bound to
 		instrs(fn, func(b *ssa.BasicBlock, i int, in ssa.Instruction) {
 			if ret, ok := in.(*ssa.Return); ok && len(ret.Results) == 1 {
-				trig = resolveFuncValue(ret.Results[0], 0)
-				if f2, rv := funcAndReceiver(ret.Results[0]); f2 != nil && rv != nil {
+				trig = resolveFuncValue(returnedValue(ret, 0), 0)
+				if f2, rv := funcAndReceiver(returnedValue(ret, 0)); f2 != nil && rv != nil {
 					trig, trigRecv = origin(f2), rv
 				}
 			}
